@@ -106,6 +106,46 @@ class ClosedLoop(World):
 
     outcome_delay = 5
 
+    def add_parent_handler(self, deco, hid, subs, **kw):
+        """A handler that declares sub-handlers (@kopf.subhandler) on every attempt in which it gets that far.
+        Outcome 4 of the parent = PermanentError raised BEFORE the sub-handlers are declared."""
+        loop = self
+
+        def record(the_id, retry, reason, spec, kwargs):
+            rec = read_record(loop.server.obj, the_id, loop.storage)
+            seq = loop.outcomes.get(the_id, [])
+            n = len([i for i in loop.invocations if i['id'] == the_id])
+            out = seq[n] if n < len(seq) else 0
+            loop.invocations.append({'id': the_id, 'retry': retry, 't': loop.loop._now, 'incarnation': loop.incarnation,
+                                     'spec': dict(spec), 'reason': str(reason), 'server_record': rec, 'outcome': out,
+                                     'event': loop.events, 'old': copy.deepcopy(kwargs.get('old')),
+                                     'new': copy.deepcopy(kwargs.get('new')), 'diff': list(kwargs.get('diff') or ()),
+                                     'rv': kwargs['meta'].get('resourceVersion'),
+                                     'deleting': kwargs['meta'].get('deletionTimestamp') is not None})
+            return out
+
+        def raise_for(out):
+            if out == 1:
+                raise kopf.TemporaryError('temporary', delay=loop.outcome_delay)
+            if out == 2:
+                raise kopf.PermanentError('permanent')
+            if out == 3:
+                raise ValueError('arbitrary')
+
+        async def parent(retry, reason, spec, **kwargs):
+            out = record(hid, retry, reason, spec, kwargs)
+            if out == 4:
+                raise kopf.PermanentError('parent gives up before declaring its sub-handlers')
+            for sub in subs:
+                def make(sub_id):
+                    async def subfn(retry, reason, spec, **kw2):
+                        raise_for(record(f'{hid}/{sub_id}', retry, reason, spec, kw2))
+                    return subfn
+                kopf.subhandler(id=sub)(make(sub))
+            raise_for(out)
+        parent.__name__ = hid
+        deco(PLURAL, id=hid, registry=self.registry, **kw)(parent)
+
     # ---- the kill hook
     def arm_kill(self, at_request, mode):
         """Kill the operator at its at_request-th request from now: before or after the server applies it."""
